@@ -232,3 +232,76 @@ def gen_c20(run_seed):
             spec['syntax'] = s
             ops.append({'op': 'edit_cfg', 'cfg': cid, 'path': ['syntax'], 'value': s})
     return {'world': world, 'ops': ops, 'meta': {}}
+
+
+# ---------------------------------------------------------------------------
+# exhaustive grid: every syntax name x key kind x candidate key x subset of the
+# three caller-controlled layers (the two built-in layers are varied by the choice
+# of (syntax, key) pairs the built-in tables do / do not define)
+
+GRID_NAMES = [('markup', s) for s in MARKUP] + [('stylesheet', s) for s in STYLE] + \
+             [('markup', UNKNOWN['markup']), ('stylesheet', UNKNOWN['stylesheet'])]
+GRID_KEYS = {
+    ('markup', 'options'): ['output.selfClosingStyle', 'jsx.enabled', 'markup.attributes', 'output.indent', 'custom.flag'],
+    ('stylesheet', 'options'): ['stylesheet.after', 'stylesheet.between', 'stylesheet.intUnit', 'custom.flag'],
+    ('markup', 'snippets'): ['a', 'tm', '!!!', 'zz'],
+    ('stylesheet', 'snippets'): ['m', 'zz'],
+    ('markup', 'variables'): ['lang', 'vv'],
+    ('stylesheet', 'variables'): ['lang', 'vv'],
+}
+GRID_SIZE = len(GRID_NAMES) * 3
+
+
+def grid_abbr(t, kind, key):
+    if t == 'stylesheet':
+        if kind == 'snippets':
+            return key + '+p10'
+        return 'm10+w1.5+zz'
+    if kind == 'snippets':
+        return key + '+br'
+    if kind == 'variables':
+        return 'div[title=${%s}]+br' % key
+    return 'br+div.c[for=x]>span..d'
+
+
+def gen_c20_grid(index):
+    "Deterministic grid history number `index` (0 <= index < GRID_SIZE)"
+    t, s = GRID_NAMES[index // 3]
+    kind = ('options', 'snippets', 'variables')[index % 3]
+    style = t == 'stylesheet'
+    spec = {'id': 'c0', 'holder': 'dict', 'type': t, 'syntax': s, 'global': 'g0'}
+    world = {'configs': {'c0': spec}, 'caches': [], 'globals': {'g0': {}}}
+    ops = []
+    n = 0
+    for key in GRID_KEYS[(t, kind)]:
+        for bits in range(8):
+            n += 1
+            gt, gs, u = bits & 1, bits & 2, bits & 4
+
+            def val(tag):
+                if kind == 'options':
+                    return option_value(key, tag, n)
+                if kind == 'snippets':
+                    return snippet_value(style, key, tag, n)
+                return '%s%d' % (tag, n)
+            layer = {'nosuch': {kind: {key: val('GX')}}}
+            other = 'stylesheet' if not style else 'markup'
+            layer[other] = {kind: {key: val('GX')}}
+            if gt:
+                layer[t] = {kind: {key: val('GT')}}
+            if gs:
+                layer[s] = {kind: {key: val('GS')}}
+            ops.append({'op': 'set_global', 'global': 'g0', 'layer': layer})
+            if u:
+                ops.append({'op': 'edit_cfg', 'cfg': 'c0', 'path': [kind, key], 'value': val('U'), 'inplace': bool(n % 2)})
+            else:
+                ops.append({'op': 'edit_cfg', 'cfg': 'c0', 'path': [kind, key], 'delete': True, 'inplace': bool(n % 2)})
+            ops.append({'op': 'resolve', 'cfg': 'c0'})
+            ops.append({'op': 'call', 'cfg': 'c0', 'abbr': grid_abbr(t, kind, key), 'pin': 0, 'c20': True})
+    return {'world': world, 'ops': ops, 'meta': {'grid': [t, s, kind]}}
+
+
+def gen_c20_indexed(run_seed, index, tier=None):
+    if index < GRID_SIZE:
+        return gen_c20_grid(index)
+    return gen_c20(run_seed)
